@@ -213,7 +213,9 @@ struct SIMDVector {
     template<typename U>
     FASTOR_INLINE SIMDVector<U,ABI> cast() {
         SIMDVector<U,ABI> out;
-        for (FASTOR_INDEX i=0; i<Size;++i) {
+        // the target vector has fewer lanes when U is wider than T: do not write past its end
+        constexpr FASTOR_INDEX OutSize = SIMDVector<U,ABI>::Size;
+        for (FASTOR_INDEX i=0; i<(Size < OutSize ? Size : OutSize);++i) {
             out.value[i] = static_cast<U>(value[i]);
         }
         return out;
